@@ -33,12 +33,15 @@ VerNum(v) == IF v = "gfa1" THEN 1 ELSE 2
 RECURSIVE SumSet(_)
 SumSet(S) == IF S = {} THEN 0 ELSE LET x == CHOOSE x \in S : TRUE IN x + SumSet(S \ {x})
 
-Docs(v) == ValidDocs(v, KL) \cup SeedDocs(v, KS) \cup SpecialDocs(v)
+Docs(v) == ValidDocs(v, KL) \cup SeedDocs(v, KS) \cup SpecialDocs(v) \cup BoundaryDocs(v)
 
 \* the variant that gets the full configuration product
 FullTv(d) == (SumSet(d) % NVar) + 1
 IsSpecial(d) == \E i \in d : HasCp(Cat(ver)[i])
-Tvs(d) == IF IsSpecial(d) THEN {0, FullTv(d)}
+\* documents of the boundary catalogue of custom records: the single lines get the full
+\* configuration product under one variant (real tags appended on the right)
+IsBoundary(d) == \E i \in d : i \in BoundaryIdx(ver)
+Tvs(d) == IF IsSpecial(d) \/ (IsBoundary(d) /\ ~TVALL) THEN {0, FullTv(d)}
           ELSE IF TVALL THEN 0..NVar
           ELSE {0} \cup {((SumSet(d) + 7 * m) % NVar) + 1 : m \in 0..2}
 OrdOf(d, t) == IF (t + Cardinality(d)) % 2 = 0 THEN "asc" ELSE "desc"
@@ -63,7 +66,9 @@ Flat(ix, t, j) == IF j > Len(ix) THEN <<>>
 Emit == LET o == OrdOf(doc, tv)
             ix == DocOrder(doc, o) IN
         PrintT(<<"CASE", VerNum(ver), tv, IF o = "asc" THEN 0 ELSE 1,
-                 IF IsSpecial(doc) \/ (tv = FullTv(doc) /\ SumSet(doc) % FULLMOD = 0) THEN 1 ELSE 0, Len(ix)>> \o Flat(ix, tv, 1))
+                 IF IsSpecial(doc)
+                    \/ (tv = FullTv(doc) /\ IF IsBoundary(doc) THEN Cardinality(doc) = 1 \/ FULLMOD = 1
+                                             ELSE SumSet(doc) % FULLMOD = 0) THEN 1 ELSE 0, Len(ix)>> \o Flat(ix, tv, 1))
 
 Added(a, two) == IF a = 0 THEN <<>> ELSE IF two = 1 THEN <<Var[a], Var[(a % NVar) + 1]>> ELSE <<Var[a]>>
 ASSUME \A v \in {"gfa1", "gfa2"} : \A i \in DOMAIN Cat(v) : \A a \in 0..NVar : \A two \in {0, 1} :
@@ -74,6 +79,8 @@ ASSUME \A v \in {"gfa1", "gfa2"} : \A i \in DOMAIN Cat(v) : \A a \in 0..NVar : \
 ASSUME PrintT(<<"CFGS", "full", 0, FullCfgs>>)
 ASSUME \A t \in 0..NVar : PrintT(<<"CFGS", "red", t, RedCfgs(t)>>)
 ASSUME PrintT(<<"NVAR", NVar, {<<i, Var[i].t, Var[i].n>> : i \in DOMAIN Var}>>)
+ASSUME PrintT(<<"BADVALS", BadVals>>)
+ASSUME PrintT(<<"BOUNDARY", Len(Cat2) - Len(BoundaryCustom) + 1, Len(Cat2)>>)
 ASSUME PrintT(<<"RTS", 1, {<<i, Cat1[i].rt>> : i \in DOMAIN Cat1}>>)
 ASSUME PrintT(<<"RTS", 2, {<<i, Cat2[i].rt>> : i \in DOMAIN Cat2}>>)
 =============================================================================
